@@ -69,6 +69,18 @@ static void cc_guard_check(void) { _Bool ok = 1; for (int i = 0; i < 16; ++i) ok
     char *name = cc_alloc((unsigned long)(n));                                                                          \
     for (unsigned long vf_i_##name = 0; vf_i_##name < (unsigned long)(n); ++vf_i_##name) name[vf_i_##name] = name##_in[vf_i_##name]
 
+/* same, but one constant-size heap object per possible length: the written index stays symbolic (the '-' of a negative value), and a
+ * symbolic index into a symbolic-size object sends CBMC's array theory out of memory for the 64-bit groups */
+#ifdef VF_NATIVE
+#define CC_OUT_CASES(name, n, MAX) CC_OUT(name, n, MAX)
+#else
+#define CC_OUT_CASES(name, n, MAX)                                                                                      \
+    VF_INPUT_ARR(char, name##_in, (MAX) + 1);                                                                           \
+    __CPROVER_assume((unsigned long)(n) <= (unsigned long)(MAX));                                                       \
+    char *name = 0;                                                                                                     \
+    for (unsigned long vf_k_##name = 0; vf_k_##name <= (unsigned long)(MAX); ++vf_k_##name) if ((unsigned long)(n) == vf_k_##name) {            \
+        name = (char *)malloc(vf_k_##name); for (unsigned long vf_i_##name = 0; vf_i_##name < vf_k_##name; ++vf_i_##name) name[vf_i_##name] = name##_in[vf_i_##name]; }
+#endif
 /* ---- character classes ----------------------------------------------------------------------------------------------- */
 static int s_digit(char c) { if (c >= '0' && c <= '9') return c - '0'; if (c >= 'a' && c <= 'z') return c - 'a' + 10; if (c >= 'A' && c <= 'Z') return c - 'A' + 10; return 99; }
 static int s_digit_lc(char c) { if (c >= '0' && c <= '9') return c - '0'; if (c >= 'a' && c <= 'z') return c - 'a' + 10; return 99; }
@@ -111,6 +123,7 @@ DEF_FMT_SPEC(w, vf_u128)
     const _Bool neg = SGN_##T && v < 0; const vf_u128 mag = neg ? (vf_u128)(-(vf_i128)v) : (vf_u128)v;                   \
     const int n = CAT(s_ndigits_, SFX_##T)(mag, base, D) + neg /* length of the numeral */
 #define FMT_PRE(T, W, D, MAXL) VF_INPUT(u8, L_in); CC_OUT(p, L_in, MAXL); const int L = L_in; FMT_VAL(T, W, D)
+#define FMT_PRE_CASES(T, W, D, MAXL) VF_INPUT(u8, L_in); CC_OUT_CASES(p, L_in, MAXL); const int L = L_in; FMT_VAL(T, W, D)
 #define TO_CHARS_POST(T, W, D)                                                                                              \
     char *ptr = 0; int ec = 9; to_chars_##T(p, p + L, v, base, &ptr, &ec); CC_GUARD_CHECK();                              \
     if (n <= L) {                                                                                                        \
@@ -356,21 +369,15 @@ void h_to_chars_i32(void) { const int base = CC_BASE; FMT_PRE(i32, 32, CC_D32, C
 void h_to_chars_u32(void) { const int base = CC_BASE; FMT_PRE(u32, 32, CC_D32, CC_D32 + 3);
   TO_CHARS_POST(u32, 32, CC_D32); }
 
-/* base 2: with a symbolic buffer length the '-' store makes every later index symbolic on a symbolic-size heap object (array theory
- * blow-up: out of memory at 10 GB); the length logic of to_chars<int> is proved in the cells above, the 32 binary digits here in a
- * buffer that always fits */
-/*@GROUP name=to_chars_i32_b2 props=C10,C02 kind=B bound=buffer_of_digits+3 unwind=38 tier=thorough timeout=1200 cost=6 solver=kissat@*/
-void h_to_chars_i32_b2(void) { const int base = 2; CC_OUT(p, 35, 35); const int L = 35; FMT_VAL(i32, 32, 32);
+/* signed 64-bit groups and base 2 use FMT_PRE_CASES (one constant-size buffer object per length): a symbolic index (behind the '-')
+ * into a symbolic-size heap object sends CBMC's array theory out of memory (17 M variables / 73 M clauses at 10 GB) */
+/*@GROUP name=to_chars_i32_b2 props=C10,C02 kind=K unwind=38 tier=thorough timeout=1200 cost=6 solver=kissat@*/
+void h_to_chars_i32_b2(void) { const int base = 2; FMT_PRE_CASES(i32, 32, 32, 35);
   TO_CHARS_POST(i32, 32, 32); }
 
-/* 64 bit, power-of-two bases 8 and 16 (cells 0:1).  unsigned: full domain (K).  signed: the same blow-up as above, so (a) every
- * value >= 0 with every buffer length and (b) every value in a buffer that always fits; both kind=B */
-/*@GROUP name=to_chars_i64_nonneg props=C10,C02 kind=B bound=v>=0 unwind=28 tier=thorough timeout=1200 split=CC_BI:0:1 cost=9 solver=kissat@*/
-void h_to_chars_i64_nonneg(void) { const int base = CC_BASE; FMT_PRE(i64, 64, CC_D64, CC_D64 + 3); __CPROVER_assume(v >= 0);
-  TO_CHARS_POST(i64, 64, CC_D64); }
-
-/*@GROUP name=to_chars_i64_roomy props=C10,C02 kind=B bound=buffer_of_digits+3 unwind=28 tier=thorough timeout=1200 split=CC_BI:0:1 cost=9 solver=kissat@*/
-void h_to_chars_i64_roomy(void) { const int base = CC_BASE; CC_OUT(p, CC_D64 + 3, CC_D64 + 3); const int L = CC_D64 + 3; FMT_VAL(i64, 64, CC_D64);
+/* 64 bit: full domain for the power-of-two bases 8 and 16 (cells 0:1) */
+/*@GROUP name=to_chars_i64 props=C10,C02 kind=K unwind=28 tier=thorough timeout=1200 split=CC_BI:0:1 cost=9 solver=kissat@*/
+void h_to_chars_i64(void) { const int base = CC_BASE; FMT_PRE_CASES(i64, 64, CC_D64, CC_D64 + 3);
   TO_CHARS_POST(i64, 64, CC_D64); }
 
 /*@GROUP name=to_chars_u64 props=C10,C02 kind=K unwind=28 tier=thorough timeout=1200 split=CC_BI:0:1 cost=9 solver=kissat@*/
@@ -378,9 +385,8 @@ void h_to_chars_u64(void) { const int base = CC_BASE; FMT_PRE(u64, 64, CC_D64, C
   TO_CHARS_POST(u64, 64, CC_D64); }
 
 /* 64 bit, bases 10 and 36 (cells 2:3): the full domain does not finish in 20 min -> value window */
-/*@GROUP name=to_chars_i64_win props=C10,C02 kind=B bound=|v|<2^16_or_within_2^16_of_min/max;buffer_of_digits+3 unwind=28 tier=thorough timeout=1200 split=CC_BI:2:3 cost=5 solver=kissat@*/
-void h_to_chars_i64_win(void) { const int base = CC_BASE; CC_OUT(p, CC_D64 + 3, CC_D64 + 3); const int L = CC_D64 + 3; FMT_VAL(i64, 64, CC_D64); WINDOW_VAL(i64);
-  /* buffer that always fits: see to_chars_i64_nonneg / to_chars_i64_roomy */
+/*@GROUP name=to_chars_i64_win props=C10,C02 kind=B bound=|v|<2^16_or_within_2^16_of_min/max unwind=28 tier=thorough timeout=1200 split=CC_BI:2:3 cost=5 solver=kissat@*/
+void h_to_chars_i64_win(void) { const int base = CC_BASE; FMT_PRE_CASES(i64, 64, CC_D64, CC_D64 + 3); WINDOW_VAL(i64);
   TO_CHARS_POST(i64, 64, CC_D64); }
 
 /*@GROUP name=to_chars_u64_win props=C10,C02 kind=B bound=v<2^16_or_within_2^16_of_max unwind=28 tier=thorough timeout=1200 split=CC_BI:2:3 cost=5 solver=kissat@*/
@@ -444,10 +450,6 @@ void h_to_integer_u64(void) { const int base = CC_BASE; RANGE_IN(CC_D64 + 3); TO
 /*@GROUP name=strto_short props=C10,C02 kind=B bound=strlen<=4,base_in_{0,10,16} unwind=8 solver=kissat@*/
 void h_strto_short(void) { VF_INPUT(u8, bsel); const int base = bsel == 0 ? 0 : (bsel == 1 ? 10 : 16); VF_INPUT(u8, fn); CSTR_IN(4); const _Bool uns = fn >= 2;
   VF_INPUT_BOOL(want_end); const ref_t r = REF64(uns, 4);
-  VF_KNOWN(C10_strto_base0_division_by_zero, base == 0);
-  VF_KNOWN(C10_parse_plus_sign_rejected, r.plus);
-  VF_KNOWN(C10_parse_hex_prefix_ignored, r.prefix);
-  VF_KNOWN(C10_parse_unsigned_minus_rejected, uns && r.minus);
   STRTO_ANY(fn)
   VF_REACH(); }
 
@@ -455,9 +457,6 @@ void h_strto_short(void) { VF_INPUT(u8, bsel); const int base = bsel == 0 ? 0 : 
 /*@GROUP name=strto_len8 props=C10,C02 kind=B bound=strlen<=8 unwind=12 tier=thorough timeout=1200 split=CC_BI:0:3 cost=4 solver=kissat@*/
 void h_strto_len8(void) { const int base = CC_BASE; VF_INPUT(u8, fn); CSTR_IN(8); const _Bool uns = fn >= 2;
   VF_INPUT_BOOL(want_end); const ref_t r = REF64(uns, 8);
-  VF_KNOWN(C10_parse_plus_sign_rejected, r.plus);
-  VF_KNOWN(C10_parse_unsigned_minus_rejected, uns && r.minus);
-  __CPROVER_assume(!r.prefix);   /* base 16 cell: the optional 0x prefix is checked in strto_short / sto_len8 (known finding) */
   STRTO_ANY(fn)
   VF_REACH(); }
 
@@ -466,61 +465,45 @@ void h_strto_len8(void) { const int base = CC_BASE; VF_INPUT(u8, fn); CSTR_IN(8)
  * strlen <= 8. */
 /*@GROUP name=strtol_near props=C10,C02 kind=B bound=first_digits-4_digits_equal_LONG_MIN/MAX;no_whitespace unwind=29 tier=thorough timeout=1200 split=CC_BI:1:2 cost=7 solver=kissat@*/
 void h_strtol_near(void) { const int base = CC_BASE; CSTR_IN(CC_D64 + 3); NEAR_LIMIT_STR(i64, CC_D64 + 3); STRTO_PRE(i64, CC_D64 + 3, 0);
-  VF_KNOWN(C10_parse_plus_sign_rejected, r.plus);
-  VF_KNOWN(C10_strto_out_of_range_result, r.cls == 2);
   STRTO_POST(c_strtol, long);
   VF_REACH(); }
 
 /*@GROUP name=strtoul_near props=C10,C02 kind=B bound=first_digits-4_digits_equal_ULONG_MAX;no_whitespace unwind=29 tier=thorough timeout=1200 split=CC_BI:1:2 cost=7 solver=kissat@*/
 void h_strtoul_near(void) { const int base = CC_BASE; CSTR_IN(CC_D64 + 3); NEAR_LIMIT_STR(u64, CC_D64 + 3); STRTO_PRE(u64, CC_D64 + 3, 1);
-  VF_KNOWN(C10_parse_plus_sign_rejected, r.plus);
-  VF_KNOWN(C10_parse_unsigned_minus_rejected, r.minus);
-  VF_KNOWN(C10_strto_out_of_range_result, r.cls == 2);
   STRTO_POST(c_strtoul, unsigned long);
   VF_REACH(); }
 
 /*@GROUP name=atoi props=C10,C02 kind=K unwind=17 cost=4 solver=kissat@*/
 void h_atoi(void) { CSTR_IN(13); ATO_PRE(i32, 32, 13);
-  VF_KNOWN(C10_parse_plus_sign_rejected, r.plus);
   ATO_POST(c_atoi, int); VF_REACH(); }
 
 /*@GROUP name=atol_len8 props=C10,C02 kind=B bound=strlen<=8 unwind=12 tier=thorough timeout=1200 cost=3 solver=kissat@*/
 void h_atol_len8(void) { VF_INPUT_BOOL(ll); CSTR_IN(8); ATO_PRE(i64, 64, 8);
-  VF_KNOWN(C10_parse_plus_sign_rejected, r.plus);
   if (ll) ATO_POST(c_atoll, long long) else ATO_POST(c_atol, long)
   VF_REACH(); }
 
 /*@GROUP name=atol_near props=C10,C02 kind=B bound=first_15_digits_equal_LONG_MIN/MAX;no_whitespace unwind=27 tier=thorough timeout=1200 cost=7 solver=kissat@*/
 void h_atol_near(void) { const int base = 10; CSTR_IN(23); NEAR_LIMIT_STR(i64, 23); ATO_PRE(i64, 64, 23);
-  VF_KNOWN(C10_parse_plus_sign_rejected, r.plus);
   ATO_POST(c_atol, long)
   VF_REACH(); }
 
 /*@GROUP name=stoi props=C10,C02 kind=K unwind=17 tier=thorough timeout=1200 split=CC_BI:0:3 cost=6 solver=kissat@*/
 void h_stoi(void) { const int base = CC_BASE; RANGE_IN(CC_D32 + 3); STO_PRE(i32, 32, CC_D32 + 3, 0);
-  VF_KNOWN(C10_parse_plus_sign_rejected, r.plus);
-  VF_KNOWN(C10_parse_hex_prefix_ignored, r.prefix);   /* feasible in the base 16 cell only */
   STO_POST(s_stoi, int) VF_REACH(); }
 
-/* stol, stoll, stoul, stoull on every range of length <= 8 (0x prefix included: known finding in the base 16 cell) */
+/* stol, stoll, stoul, stoull on every range of length <= 8 (0x prefix included in the base 16 cell) */
 /*@GROUP name=sto_len8 props=C10,C02 kind=B bound=len<=8 unwind=12 tier=thorough timeout=1200 split=CC_BI:0:3 cost=4 solver=kissat@*/
 void h_sto_len8(void) { const int base = CC_BASE; VF_INPUT(u8, fn); RANGE_IN(8); const _Bool uns = fn >= 2;
   VF_INPUT_BOOL(want_pos); const ref_t r = REF64(uns, 8);
-  VF_KNOWN(C10_parse_plus_sign_rejected, r.plus);
-  VF_KNOWN(C10_parse_hex_prefix_ignored, r.prefix);   /* feasible in the base 16 cell only */
-  VF_KNOWN(C10_parse_unsigned_minus_rejected, uns && r.minus);
   STO_ANY(fn)
   VF_REACH(); }
 
 /*@GROUP name=stol_near props=C10,C02 kind=B bound=first_15_digits_equal_LONG_MIN/MAX;no_whitespace;base_10 unwind=28 tier=thorough timeout=1200 split=CC_BI:2:2 cost=7 solver=kissat@*/
 void h_stol_near(void) { const int base = CC_BASE; RANGE_IN(CC_D64 + 3); NEAR_LIMIT_STR(i64, CC_D64 + 3); STO_PRE(i64, 64, CC_D64 + 3, 0);
-  VF_KNOWN(C10_parse_plus_sign_rejected, r.plus);
   STO_POST(s_stol, long)
   VF_REACH(); }
 
 /*@GROUP name=stoul_near props=C10,C02 kind=B bound=first_16_digits_equal_ULONG_MAX;no_whitespace;base_10 unwind=28 tier=thorough timeout=1200 split=CC_BI:2:2 cost=7 solver=kissat@*/
 void h_stoul_near(void) { const int base = CC_BASE; RANGE_IN(CC_D64 + 3); NEAR_LIMIT_STR(u64, CC_D64 + 3); STO_PRE(u64, 64, CC_D64 + 3, 1);
-  VF_KNOWN(C10_parse_plus_sign_rejected, r.plus);
-  VF_KNOWN(C10_parse_unsigned_minus_rejected, r.minus);
   STO_POST(s_stoul, unsigned long)
   VF_REACH(); }
